@@ -118,18 +118,18 @@ Qed.
 (* ---------------- sections ---------------- *)
 Lemma keep_elems ks : forallb is_element ks = true -> keep ks = ks.
 Proof.
-  intros H. unfold keep. assert (E : drop_lead_text (rev ks) = rev ks).
-  { assert (H2 : forallb is_element (rev ks) = true) by (rewrite forallb_forall in *; intros x Hx; apply H; now apply in_rev).
-    destruct (rev ks) as [|x r]; [reflexivity|]. cbn [forallb] in H2. apply andb_prop in H2 as [Hx _]. destruct x; try discriminate. reflexivity. }
-  rewrite E. apply rev_involutive.
+  intros H. unfold keep. destruct ks as [|x r]; [reflexivity|]. cbn [forallb existsb] in *. apply andb_prop in H as [Hx _]. now rewrite Hx.
 Qed.
 
 Definition sec_regs (pn : partname) (sec : node) : list str :=
-  match sec with Elem q _ ks => match route pn q with Some s => reg_kids (sec_q s) ks | None => [] end | _ => [] end.
+  match sec with Elem q _ ks => match route pn q with Some s => reg_kids (sec_q s) (keep ks) | None => [] end | _ => [] end.
 Definition sec_apply (pn : partname) (d : odfdoc) (sec : node) : odfdoc :=
-  match sec with Elem q _ ks => match route pn q with Some s => add_to d s ks | None => d end | _ => d end.
-Definition good_section (sec : node) : Prop :=
-  exists q a ks, sec = Elem q a ks /\ forallb is_element ks = true /\ forallb nocdata ks = true.
+  match sec with Elem q _ ks => match route pn q with Some s => add_to d s (keep ks) | None => d end | _ => d end.
+(* a child of a part's root: anything but an element is ignored; an element must be free of CDATA sections (parsed trees are) *)
+Definition good_section (sec : node) : Prop := forall q a ks, sec = Elem q a ks -> forallb nocdata ks = true.
+
+Lemma keep_nocdata ks : forallb nocdata ks = true -> forallb nocdata (keep ks) = true.
+Proof. intros H. unfold keep. destruct (existsb is_element ks); [exact H|reflexivity]. Qed.
 
 Lemma load_sections_id pn secs : forall st d, ls_fix st = [] -> Forall good_section secs ->
   NoDup (ls_names st ++ flat_map (sec_regs pn) secs) ->
@@ -137,10 +137,13 @@ Lemma load_sections_id pn secs : forall st d, ls_fix st = [] -> Forall good_sect
 Proof.
   induction secs as [|sec r IH]; intros st d Hf Hg Hd.
   - cbn. rewrite app_nil_r. destruct st. cbn in *. now subst.
-  - apply Forall_cons_iff in Hg as [(q & a & ks & -> & He & Hc) Hg]. cbn [fold_left flat_map] in *. rewrite app_assoc in Hd.
-    unfold load_section at 2. cbn [fst snd sec_regs sec_apply] in *. destruct (route pn q) as [s|].
-    + rewrite (keep_elems ks He). rewrite (ld_kids_id ks st (sec_q s) Hf Hc (NoDup_app_l _ _ Hd)).
-      rewrite (IH (mkLS (ls_names st ++ reg_kids (sec_q s) ks) []) _ eq_refl Hg Hd). cbn [ls_names]. now rewrite app_assoc.
+  - apply Forall_cons_iff in Hg as [Hsec Hg]. cbn [fold_left flat_map] in *. rewrite app_assoc in Hd.
+    destruct sec as [q a ks|t|t]; cbn [load_section fst snd sec_regs sec_apply] in *.
+    + pose proof (Hsec q a ks eq_refl) as Hc. destruct (route pn q) as [s|].
+      * rewrite (ld_kids_id (keep ks) st (sec_q s) Hf (keep_nocdata ks Hc) (NoDup_app_l _ _ Hd)).
+        rewrite (IH (mkLS (ls_names st ++ reg_kids (sec_q s) (keep ks)) []) _ eq_refl Hg Hd). cbn [ls_names]. now rewrite app_assoc.
+      * rewrite app_nil_r in *. now apply IH.
+    + rewrite app_nil_r in *. now apply IH.
     + rewrite app_nil_r in *. now apply IH.
 Qed.
 End LP.
